@@ -35,8 +35,12 @@ ENV = dict(os.environ, CARGO_NET_OFFLINE="true", RUST_BACKTRACE="0")
 
 
 def sh(cmd, cwd=None, timeout=None, env=None):
-    p = subprocess.run(cmd, cwd=cwd, stdout=subprocess.PIPE, stderr=subprocess.STDOUT, text=True,
-                       timeout=timeout, env=env or ENV, errors="replace")
+    try:
+        p = subprocess.run(cmd, cwd=cwd, stdout=subprocess.PIPE, stderr=subprocess.STDOUT, text=True,
+                           timeout=timeout, env=env or ENV, errors="replace")
+    except subprocess.TimeoutExpired as e:
+        out = e.stdout.decode(errors="replace") if isinstance(e.stdout, bytes) else (e.stdout or "")
+        return 124, out + "\n[timed out after %ss: possible non-termination]" % timeout
     return p.returncode, p.stdout
 
 
@@ -202,6 +206,7 @@ def harness_bin(profile):
 # 3. correspondence
 # ----------------------------------------------------------------------------------------------
 
+RUN_TIMEOUT = [900]   # seconds for one harness run (quick); raised for the thorough tier
 ISOLATED = set()   # families whose cases run in child processes (`run-isolated`), from the property config
 
 
@@ -218,7 +223,7 @@ def run_pipeline(family, profile, cases_path, prefix):
         if os.path.exists(p):
             os.remove(p)
     mode = "run-isolated" if family in ISOLATED else "run"
-    rc, out = sh([harness_bin(profile), mode, family, cases_path, impl], timeout=7200)
+    rc, out = sh([harness_bin(profile), mode, family, cases_path, impl], timeout=RUN_TIMEOUT[0])
     if rc != 0 or not os.path.exists(impl):
         return None, None, None, "harness run %s/%s crashed (rc=%s): %s" % (family, profile, rc, out[-400:])
     rc, out = sh([DRIVER, family, cases_path, impl, model, oracle], timeout=7200)
@@ -369,6 +374,7 @@ def check(pid, tier):
     wdir = os.path.join(WORK, pid)
     os.makedirs(wdir, exist_ok=True)
     thorough = tier == "thorough"
+    RUN_TIMEOUT[0] = 10800 if thorough else 900
     violations = []   # (replay_path, suffix)
     known_lines = []
     replays = Replays(wdir)
